@@ -17,7 +17,7 @@ META = dict(
 
 
 def jobs(tier):
-    ks = [2, 3] if tier == 'quick' else [2, 3, 4]
+    ks = [2, 3] if tier == 'quick' else [2, 3, 4, 5]
     js = []
     for pol in ('pch', 'psd', 'psw'):
         for ov in ('none', 'pch', 'psd', 'psw'):
